@@ -1252,6 +1252,14 @@ impl<'a, R: FileManager> FrontendCtx<'a, R> {
         obj: &Runtype,
         anchor: &Anchor,
     ) -> Res<BTreeMap<String, Optionality<Runtype>>> {
+        self.extract_object_from_runtype_following(obj, anchor, &mut vec![])
+    }
+    fn extract_object_from_runtype_following(
+        &mut self,
+        obj: &Runtype,
+        anchor: &Anchor,
+        following: &mut Vec<RuntypeUUID>,
+    ) -> Res<BTreeMap<String, Optionality<Runtype>>> {
         match &obj.kind {
             RuntypeKind::Object {
                 vs,
@@ -1266,8 +1274,21 @@ impl<'a, R: FileManager> FrontendCtx<'a, R> {
                     .get(r)
                     .and_then(|it| it.as_ref())
                     .cloned();
+                // an alias that leads back to itself (type A = A) names no object
+                if following.contains(r) {
+                    return self.error(
+                        anchor,
+                        DiagnosticInfoMessage::ShouldHaveObjectAsTypeArgument,
+                    );
+                }
                 match map {
-                    Some(schema) => self.extract_object_from_runtype(&schema, anchor),
+                    Some(schema) => {
+                        following.push(r.clone());
+                        let res =
+                            self.extract_object_from_runtype_following(&schema, anchor, following);
+                        following.pop();
+                        res
+                    }
                     None => self.error(
                         anchor,
                         DiagnosticInfoMessage::ShouldHaveObjectAsTypeArgument,
@@ -1278,7 +1299,8 @@ impl<'a, R: FileManager> FrontendCtx<'a, R> {
                 let mut acc = BTreeMap::new();
 
                 for v in vs {
-                    let extracted = self.extract_object_from_runtype(v, anchor)?;
+                    let extracted =
+                        self.extract_object_from_runtype_following(v, anchor, following)?;
 
                     // check that if items have the same key, they have the same value
 
